@@ -35,7 +35,7 @@ CLS = {"Processor": "CProcessor", "Group": "CGroup", "Model": "CModel", "Args": 
        "Detector": "CDetector", "Observation": "CObservation", "Readout": "CReadout", "List": "CList",
        "Dict": "CDict", "Array": "CArray", "Leaf": "CLeaf", "Obj": "CObj"}
 
-SITE_ROW = {"deepcopy": None, "replace": "Processor.replace", "create_new_processor": "create_new_processor",
+SITE_ROW = {"deepcopy": None, "pickle": None, "replace": "Processor.replace", "create_new_processor": "create_new_processor",
             "update_processor": "update_processor", "build_processors": "build_processors",
             "fitting_init": "ModelFittingDataTree.__init__"}
 
@@ -248,18 +248,19 @@ def gen_sitefail(r, k):
 
 
 def gen_graph(r, k):
-    sites = ["deepcopy", "replace", "create_new_processor", "update_processor", "build_processors", "fitting_init"]
+    sites = ["deepcopy", "replace", "create_new_processor", "update_processor", "build_processors", "fitting_init",
+             "pickle"]
     site = sites[k % len(sites)]
     pname, spec, keys, lkey, has_fail = gen_spec(r)
     if site in ("update_processor", "fitting_init"):
         spec["readout"] = dict(times=[1.0], non_destructive=False)
     if r.random() < 0.2:
         spec["det"]["kind"] = r.choice(["apd", "mkid"])
-    nk = r.choice([0, 1, 2]) if site in ("deepcopy", "fitting_init") else r.choice([1, 2])
+    nk = r.choice([0, 1, 2]) if site in ("deepcopy", "fitting_init", "pickle") else r.choice([1, 2])
     params = {key: r.choice(DYADIC) for key in r.sample(keys, min(nk, len(keys)))}
     if lkey and site in ("replace", "create_new_processor", "build_processors") and r.random() < 0.5:
         params[lkey] = [7, 8, 9]
-    with_obs = site in ("replace", "create_new_processor", "deepcopy") and r.random() < 0.6
+    with_obs = site in ("replace", "create_new_processor", "deepcopy", "pickle") and r.random() < 0.6
     # a list-valued parameter replaces a list of the same length (same graph shape): no run before it,
     # because mutates_args would have grown the caller's list
     pre_run = r.random() < 0.5 and not (lkey and lkey in params)
@@ -824,7 +825,7 @@ def nontrivial(c) -> bool:
     """Non-trivial: the pipeline contains a model that keeps memory on the detector or mutates its
     own argument AND (graph) the site sets >= 1 parameter or (behaviour) >= 2 runs are made."""
     if c["kind"] == "graph":
-        return bool(c["params"]) or c["site"] in ("deepcopy", "fitting_init")
+        return bool(c["params"]) or c["site"] in ("deepcopy", "fitting_init", "pickle")
     if c["kind"] == "sitefail":
         return True
     if c["kind"] == "observe":
